@@ -42,6 +42,13 @@ LAYOUTS_5 = """<< <<I({" ", "A"})>>,
 LAYOUTS_6 = LAYOUTS_5[:-3] + """,
    <<E, E, I({" ", "B"}), I({" ", "A", "B"})>> >>"""
 
+CUBES_3 = """<< <<Cube({" ", "A"}, <<"FREQ", "RA", "DEC">>, 2), Cube({" ", "A"}, <<"RA", "FREQ", "DEC">>, 2),
+      Cube({" ", "A"}, <<"RA", "DEC", "FREQ">>, 2), Cube({" ", "A"}, <<"STOKES", "RA", "DEC">>, 1)>>,
+   <<E, Cube({" ", "A"}, <<"RA", "STOKES", "DEC">>, 1), Cube({" ", "A"}, <<"RA", "DEC", "STOKES", "FREQ">>, 2),
+      Cube({" ", "A"}, <<"FREQ", "RA", "STOKES", "DEC">>, 2)>>,
+   <<I({" "}), Cube({" ", "A"}, <<"STOKES", "FREQ", "RA", "DEC">>, 2), Cube({" ", "A"}, <<"RA", "DEC", "FREQ">>, 1),
+      Cube({" ", "A"}, <<"RA", "FREQ", "DEC", "STOKES">>, 1)>> >>"""
+
 ALL_FORMS = ("none", "one", "each")
 
 CFG = """SPECIFICATION Spec
@@ -76,10 +83,11 @@ def mc_module(layouts_text, hforms=ALL_FORMS, kforms=ALL_FORMS, theorems=True, d
         "ASSUME JsonSerialize(IOEnv.OUT, [files |-> FileTable, nfiles |-> Len(FileSeq)])",
         'Emit == Done => PrintT(<<"R", ToJson([lay |-> lay, hs |-> hs, ks |-> ks, '
         'cli |-> [hdu |-> Tokens(hs), key |-> Tokens(ks)], '
-        'exp |-> [n \\in 1..N |-> Observed(dout[n])]])>>)',
+        'exp |-> [n \\in 1..N |-> Observed(dout[n])], sky |-> [n \\in 1..N |-> Sky(dout[n])], '
+        'tiling |-> [unit |-> MosaicUnit(dout), aligned |-> Aligned(dout), samesky |-> SameSky(dout)]])>>)',
     ]
     if theorems:
-        defs.insert(3, "ASSUME GuessIsFirstImage(4) /\\ CaseSpaceComplete(2)")
+        defs.insert(3, "ASSUME GuessIsFirstImage(4) /\\ CaseSpaceComplete(2) /\\ CubeSlicing")
     return tla.module("MCCollection", ["Collection", "Json", "IOUtils", "SequencesExt"], defs)
 
 
@@ -91,7 +99,8 @@ def all_layouts(ctx):
     defs = [("MCLayouts", '<< <<I({" "})>> >>'), ("MCForms", '{"none"}'),
             "ASSUME GuessIsFirstImage(4)",
             "ASSUME JsonSerialize(IOEnv.OUT, [l2 |-> SetToSeq({f \\in AllLayouts(2) : HasImage(f)}), "
-            "l3 |-> SetToSeq({f \\in AllLayouts(3) : HasImage(f)})])"]
+            "l3 |-> SetToSeq({f \\in AllLayouts(3) : HasImage(f)}), "
+            "cubes |-> [f \\in 1..(Cardinality(CubeTypes) \\div 4) |-> [jj \\in 1..4 |-> SetToSeq(CubeTypes)[4 * (f - 1) + jj]]]])"]
     cfg = ("SPECIFICATION Spec\nCONSTANTS\n MaxFiles = 1\n FileSeq <- MCLayouts\n HduForms <- MCForms\n KeyForms <- MCForms\n"
            "CHECK_DEADLOCK FALSE\n")
     ctx.tlc("MCLayouts", extra={"MCLayouts.tla": tla.module("MCLayouts", ["Collection", "Json", "IOUtils", "SequencesExt"], defs)},
@@ -99,8 +108,9 @@ def all_layouts(ctx):
     d = json.load(open(outp))
 
     def text(files):
-        return tla.lit([[{"kind": h["kind"], "keys": set(h["keys"])} for h in f] for f in files])
-    return text(d["l2"]), text(d["l3"]), len(d["l2"]), len(d["l3"])
+        return tla.lit([[{"kind": h["kind"], "keys": set(h["keys"]), "axes": list(h["axes"]), "xlen": h["xlen"]} for h in f]
+                        for f in files])
+    return text(d["l2"]), text(d["l3"]), len(d["l2"]), len(d["l3"]), text(d["cubes"]), sum(len(f) for f in d["cubes"])
 
 
 HCFG = """SPECIFICATION HSpec
@@ -148,18 +158,27 @@ def histories(ctx):
 # writing the FITS files TLC describes
 # ---------------------------------------------------------------------------------------------------
 
-def _wcs_cards(header, w):
+def _wcs_cards(header, w, axes):
+    """One WCS solution: the celestial axes carry TLC's numbers, a spectral / Stokes axis a plain linear scale."""
     k = w["key"].strip()
-    header["CTYPE1" + k] = "RA---TAN"
-    header["CTYPE2" + k] = "DEC--TAN"
-    header["CRVAL1" + k] = float(w["crval"][0])
-    header["CRVAL2" + k] = float(w["crval"][1])
-    header["CRPIX1" + k] = float(w["crpix"][0])
-    header["CRPIX2" + k] = float(w["crpix"][1])
-    header["CDELT1" + k] = w["cdelt"][0] / 1000.0
-    header["CDELT2" + k] = w["cdelt"][1] / 1000.0
-    header["CUNIT1" + k] = "deg"
-    header["CUNIT2" + k] = "deg"
+    cel = {"RA": ("RA---TAN", 0), "DEC": ("DEC--TAN", 1)}
+    other = {"FREQ": ("FREQ", 1.0e9, 1.0e6, "Hz"), "STOKES": ("STOKES", 1.0, 1.0, "")}
+    for n, ax in enumerate(axes, start=1):
+        if ax["name"] in cel:
+            ctype, c = cel[ax["name"]]
+            header["CTYPE%d%s" % (n, k)] = ctype
+            header["CRVAL%d%s" % (n, k)] = float(w["crval"][c])
+            header["CRPIX%d%s" % (n, k)] = float(w["crpix"][c])
+            header["CDELT%d%s" % (n, k)] = w["cdelt"][c] / 1000.0
+            header["CUNIT%d%s" % (n, k)] = "deg"
+        else:
+            ctype, crval, cdelt, unit = other[ax["name"]]
+            header["CTYPE%d%s" % (n, k)] = ctype
+            header["CRVAL%d%s" % (n, k)] = crval
+            header["CRPIX%d%s" % (n, k)] = 1.0
+            header["CDELT%d%s" % (n, k)] = cdelt
+            if unit:
+                header["CUNIT%d%s" % (n, k)] = unit
 
 
 def write_fits(path, hdus):
@@ -169,10 +188,16 @@ def write_fits(path, hdus):
     out = []
     for j, h in enumerate(hdus):
         if h["kind"] == "img":
-            data = np.full(tuple(h["shape"]), h["val"], dtype=np.float32)
+            # numpy order is FITS order reversed; the pixel at (one index per axis) holds val + planestep * (sum of the
+            # indices on the non-celestial axes)
+            lens = [ax["len"] for ax in h["axes"]][::-1]
+            names = [ax["name"] for ax in h["axes"]][::-1]
+            grid = np.indices(lens)
+            extra = sum(grid[n] for n, nm in enumerate(names) if nm not in ("RA", "DEC"))
+            data = (h["val"] + h["planestep"] * extra + np.zeros(lens)).astype(np.float32)
             hdu = fits.PrimaryHDU(data) if j == 0 else fits.ImageHDU(data)
             for w in sorted(h["wcs"], key=lambda w: w["key"]):
-                _wcs_cards(hdu.header, w)
+                _wcs_cards(hdu.header, w, h["axes"])
         elif h["kind"] == "empty":
             hdu = fits.PrimaryHDU() if j == 0 else fits.ImageHDU()
         elif h["kind"] == "tab":
@@ -529,24 +554,89 @@ def _show(spec):
     return repr(list(spec["v"]))
 
 
+def _mosaic(out, level):
+    """The deepest tile level stitched into one array (row 0 at the top), NaN where there is no tile."""
+    import glob
+    import numpy as np
+    from astropy.io import fits
+    n = 256 * 2 ** level
+    full = np.full((n, n), np.nan)
+    for p in glob.glob(os.path.join(out, str(level), "*", "*.fits")):
+        y = int(os.path.basename(os.path.dirname(p)))
+        x = int(os.path.basename(p).split("_")[1].split(".")[0])
+        with fits.open(p) as hl:
+            full[256 * y:256 * (y + 1), 256 * x:256 * (x + 1)] = hl[0].data[::-1]      # FITS tiles are stored bottom-up
+    return full
+
+
+def check_tiling(out, level, rec, mode, case):
+    """What the tiling shows against what TLC says each input contributes and where."""
+    import numpy as np
+    exp, sky, tiling = rec["exp"], rec["sky"], rec["tiling"]
+    res = []
+    full = _mosaic(out, level)
+    fin = np.isfinite(full)
+    if tiling["aligned"]:
+        # inputs on one pixel grid: pixels are copied, so the count per value is exact
+        v, c = np.unique(full[fin], return_counts=True)
+        counts = dict(zip(v.tolist(), c.tolist()))
+        want = {float(e["val"]): e["shape"][0] * e["shape"][1] for e in exp}
+        if counts != want:
+            res.append(("V", "%s:wrong-pixels" % mode, "deepest tile level holds pixel values %s, the selected HDUs hold %s" % (counts, want), case))
+        return res
+    # inputs of different pixel scale: each is resampled (a constant image stays constant) onto the finest grid
+    unit = float(tiling["unit"])
+    want = {}
+    for e, sk in zip(exp, sky):
+        want[float(e["val"])] = sk
+    vals = np.round(full[fin])
+    if np.abs(full[fin] - vals).max(initial=0.0) > 1e-3:
+        res.append(("V", "%s:wrong-pixels" % mode, "the tiling holds pixel values that are no input's value: %s" % (np.unique(full[fin])[:8],), case))
+        return res
+    present = set(np.unique(vals).tolist())
+    if present != set(want):
+        res.append(("V", "%s:wrong-pixels" % mode, "the tiling of inputs %s (finest scale first? %s) shows the values %s; the selected HDUs hold %s"
+                    % (rec["lay"], [e["cdelt"][1] for e in exp], sorted(present), sorted(want)), case))
+        return res
+    place = {}
+    for v, sk in want.items():
+        ys, xs = np.nonzero(fin & (np.abs(full - v) < 0.5))
+        place[v] = (xs.mean(), ys.mean(), len(xs))
+        area = sk["w"] * sk["h"] / (unit * unit)
+        if not 0.6 * area <= len(xs) <= 1.4 * area:
+            res.append(("V", "%s:misplaced" % mode, "value %s covers %d pixels of the tiling, the selected HDU covers %s x %s"
+                        % (v, len(xs), sk["w"] / unit, sk["h"] / unit), case))
+    vs = sorted(want)
+    for a in vs[1:]:
+        # displacement between two inputs (the mosaic frame may be rotated to fit the inputs tightly, so: the distance, and
+        # the side along x, where the encoding separates the inputs)
+        dx = place[a][0] - place[vs[0]][0]
+        dy = place[a][1] - place[vs[0]][1]
+        ex = (want[a]["cx2"] - want[vs[0]]["cx2"]) / (2 * unit)
+        ey = -(want[a]["cy2"] - want[vs[0]]["cy2"]) / (2 * unit)
+        if abs((dx * dx + dy * dy) ** 0.5 - (ex * ex + ey * ey) ** 0.5) > 2 or dx * ex <= 0:
+            res.append(("V", "%s:misplaced" % mode, "value %s lies (%.1f, %.1f) pixels from value %s in the tiling, its HDU lies (%.1f, %.1f) from that one on the sky"
+                        % (a, dx, dy, vs[0], ex, ey), case))
+    return res
+
+
 def e2e_case(args):
-    """The real tilers end to end: the pixels of the deepest tile level are exactly the selected HDUs' pixels."""
+    """The real tilers end to end: the deepest tile level shows every input's selected HDU, at its own place."""
     root, idx, rec, mode = args
     repo.setup()
     import contextlib
     import glob
     import io
     import warnings
-    import numpy as np
-    from astropy.io import fits
     import toasty
+    os.environ["SLURM_NPROCS"] = "1"      # toasty's own knob: the cascade inside tile_fits takes no `parallel` argument
     hs, ks, cli, exp = rec["hs"], rec["ks"], rec["cli"], rec["exp"]
     paths = input_paths(root, exp, False)
     out = os.path.join(root, "e2e-%s-%d" % (mode, idx))
-    case = {"entry": mode, "layouts": rec["lay"], "hdu_index": hs, "wcs_key": ks, "expected": exp}
+    case = {"entry": mode, "layouts": rec["lay"], "hdu_index": hs, "wcs_key": ks, "expected": exp, "sky": rec["sky"], "tiling": rec["tiling"]}
     res = []
     try:
-        with warnings.catch_warnings(), contextlib.redirect_stdout(io.StringIO()), contextlib.redirect_stderr(io.StringIO()):
+        with warnings.catch_warnings(), contextlib.redirect_stdout(io.StringIO()) as sink, contextlib.redirect_stderr(io.StringIO()):
             warnings.simplefilter("ignore")
             if mode == "tiler-history":
                 # the library's own consumers on ONE collection object: a TAN tiling, then both enumerations again
@@ -566,6 +656,20 @@ def e2e_case(args):
             elif mode == "tile_fits-e2e":
                 _o, bld = toasty.tile_fits(list(paths), out_dir=out, parallel=1, **_kwargs(hs, ks))
                 level = bld.imgset.tile_levels
+            elif mode == "view-e2e":
+                # `toasty view --tile-only` writes next to the first input: give it a directory of its own
+                from toasty import cli as tcli
+                os.makedirs(out)
+                links = []
+                for n, p_ in enumerate(paths):
+                    links.append(os.path.join(out, "in%d.fits" % n))
+                    os.symlink(p_, links[-1])
+                argv = ["view", "--tile-only", "--parallelism", "1"] + _cli_opts(cli, hs, ks) + links
+                case["argv"] = argv[:-len(links)]
+                tcli.entrypoint(argv)
+                wtml = [l.split(None, 1)[1].strip() for l in sink.getvalue().splitlines() if l.startswith("WTML:")]
+                out = os.path.dirname(wtml[-1])
+                level = max(int(os.path.basename(d)) for d in glob.glob(os.path.join(out, "[0-9]*")))
             else:
                 from toasty import cli as tcli
                 argv = ["tile-multi-tan", "--parallelism", "1", "--outdir", out] + _cli_opts(cli, hs, ks) + list(paths)
@@ -576,17 +680,7 @@ def e2e_case(args):
         res.append(("V", "%s:hdu-%s:raises" % (mode, hs["form"]), "tiling an in-scope selection (hdu_index %s, wcs_key %s) fails with %s: %s"
                     % (_show(hs), _show(ks), type(e).__name__, str(e)[:160]), case))
         return res
-    counts = {}
-    for p in glob.glob(os.path.join(out, str(level), "*", "*.fits")):
-        with fits.open(p) as hl:
-            d = hl[0].data
-            v, c = np.unique(d[np.isfinite(d)], return_counts=True)
-            for vv, cc in zip(v.tolist(), c.tolist()):
-                counts[vv] = counts.get(vv, 0) + cc
-    want = {float(e["val"]): e["shape"][0] * e["shape"][1] for e in exp}
-    if counts != want:
-        res.append(("V", "%s:wrong-pixels" % mode, "deepest tile level holds pixel values %s, the selected HDUs hold %s" % (counts, want), case))
-    return res
+    return res + check_tiling(out, level, rec, mode, case)
 
 
 # ---------------------------------------------------------------------------------------------------
@@ -630,10 +724,14 @@ def run(ctx):
     groups = []     # (name, root, cases)
     root, recs = tlc_cases(ctx, "five3", LAYOUTS_5, 3)
     groups.append(("five3", root, recs))
+    # HDUs with more than two axes, in every axis order (quick: 12 curated cube HDUs, one input path; thorough: all)
+    groups.append(("cubes1",) + tlc_cases(ctx, "cubes1", CUBES_3, 1, theorems=False))
     if not ctx.quick:
-        l2, l3, n2, n3 = all_layouts(ctx)
+        l2, l3, n2, n3, lc, nc = all_layouts(ctx)
         ctx.note("layouts_up_to_2_hdus", n2)
         ctx.note("layouts_up_to_3_hdus", n3)
+        ctx.note("cube_hdu_types", nc)
+        groups.append(("cubes2",) + tlc_cases(ctx, "cubes2", lc, 2, hforms=("none", "each"), kforms=("none", "one"), theorems=False))
         groups.append(("all3x1",) + tlc_cases(ctx, "all3x1", l3, 1, theorems=False, disjoint=False))
         groups.append(("all2x2",) + tlc_cases(ctx, "all2x2", l2, 2, theorems=False))
         groups.append(("six3",) + tlc_cases(ctx, "six3", LAYOUTS_6, 3, theorems=False))
@@ -646,7 +744,9 @@ def run(ctx):
         for rec in sorted(recs_, key=lambda r: json.dumps(r, sort_keys=True)):
             idx = len(jobs)
             n = len(rec["lay"])
-            if name == "five3" and n < 3:
+            if name == "cubes1":
+                ents = (ENTRIES[idx % 4],)
+            elif name == "five3" and n < 3:
                 # every entry point (quick tier: one of the four in rotation, plus tile-multi-tan where it applies)
                 ents = (ENTRIES[idx % 4],) if ctx.quick else ENTRIES
             elif ctx.quick:
@@ -666,22 +766,37 @@ def run(ctx):
             jobs.append((root_, idx, rec, ents, hists))
             names.append(name)
     e2e_roots = set(g[1] for g in groups if g[0] in ("five3", "six3"))
-    # end-to-end subset: same key for every file (so the inputs share one tangent plane), every hdu form, 1..3 files
+    # end-to-end subset: collections whose inputs share the reference point (same key), every hdu form, 1..3 paths;
+    # TLC says whether the inputs lie on one pixel grid (exact pixel copy) or have to be resampled (different scales):
+    # the resampled ones are taken in every order of finer / coarser inputs
     e2e = []
-    per_class = 1 if ctx.quick else 12
+    per_class = 1 if ctx.quick else 6
     seen = {}
-    for r_, _i, rec, _e, _h in jobs:
-        keys = set(e["key"] for e in rec["exp"])
-        if len(keys) != 1 or r_ not in e2e_roots:
-            continue
-        cls = (len(rec["exp"]), rec["hs"]["form"], rec["ks"]["form"])
-        if seen.get(cls, 0) < per_class and any(e["hdu"] != 0 for e in rec["exp"]):
-            seen[cls] = seen.get(cls, 0) + 1
-            e2e.append((r_, len(e2e), rec, "tile_fits-e2e"))
-            if seen[cls] % 2 == 1:
-                e2e.append((r_, len(e2e), rec, "tiler-history"))
-            if rec["hs"]["form"] == "one" and rec["ks"]["form"] == "one":
+    cands = [j for j in jobs if j[0] in e2e_roots and j[2]["tiling"]["samesky"] and any(e["hdu"] != 0 for e in j[2]["exp"])]
+    cands.sort(key=lambda j: (j[2]["hs"]["form"] != "each", j[1]))
+    for r_, _i, rec, _e, _h in cands:
+        n = len(rec["exp"])
+        if rec["tiling"]["aligned"]:
+            cls = (n, rec["hs"]["form"]) if ctx.quick else (n, rec["hs"]["form"], rec["ks"]["form"])
+            if seen.get(cls, 0) < per_class:
+                seen[cls] = seen.get(cls, 0) + 1
+                e2e.append((r_, len(e2e), rec, "tile_fits-e2e"))
+                if seen[cls] % 2 == 1 and rec["hs"]["form"] != "none":
+                    e2e.append((r_, len(e2e), rec, "tiler-history"))
+                if n == 2 and rec["hs"]["form"] == "each" and seen[cls] == 1:
+                    e2e.append((r_, len(e2e), rec, "view-e2e"))
+            if rec["hs"]["form"] == "one" and rec["ks"]["form"] == "one" and seen.get(("mt", n), 0) < per_class:
+                seen[("mt", n)] = seen.get(("mt", n), 0) + 1
                 e2e.append((r_, len(e2e), rec, "tile-multi-tan-e2e"))
+        else:
+            scales = [e["cdelt"][1] for e in rec["exp"]]
+            pattern = tuple((a > b) - (a < b) for a, b in zip(scales, scales[1:]))
+            cls = (n, pattern) if ctx.quick else (n, pattern, rec["hs"]["form"])
+            if seen.get(cls, 0) < (1 if ctx.quick else 2):
+                seen[cls] = seen.get(cls, 0) + 1
+                e2e.append((r_, len(e2e), rec, "tile_fits-e2e"))
+                if n == 2:
+                    e2e.append((r_, len(e2e), rec, "view-e2e" if pattern == (-1,) else "tiler-history"))
     with mp.Pool(8) as pool:
         results = pool.map(replay_case, jobs, chunksize=32)
         e2e_results = pool.map(e2e_case, e2e, chunksize=1)
@@ -698,7 +813,7 @@ def run(ctx):
         _report(ctx, res)
     ctx.note("end_to_end_tilings", len(e2e))
     ctx.note("replayed_cases_naming_one_file_twice_with_different_entries", nrep)
-    ctx.note("entry_points", list(ENTRIES) + ["cli-multi-tan", "tile_fits-e2e", "tile-multi-tan-e2e", "tiler-history"])
+    ctx.note("entry_points", list(ENTRIES) + ["cli-multi-tan", "tile_fits-e2e", "tile-multi-tan-e2e", "tiler-history", "view-e2e"])
     for _r, _i, rec, ents, _h in jobs[:: max(1, len(jobs) // 5)][:5]:
         ctx.sample({"layouts": rec["lay"], "hdu_index": _show(rec["hs"]), "wcs_key": _show(rec["ks"]), "entry": list(ents),
                     "expected": [[e["hdu"], e["shape"], e["key"], e["crval"]] for e in rec["exp"]]})
@@ -706,6 +821,9 @@ def run(ctx):
                "given both as identical strings and as different spellings of the same file")
     ctx.assume("the objects yielded by descriptions()/images() belong to the caller, who may edit them in place (the library's own "
                "tiling code does); a later enumeration of the same collection object must not see such edits")
+    ctx.assume("tilings of inputs with different pixel scales are resampled by the library (the mosaic frame may be rotated): judged "
+               "are the set of pixel values shown (exactly the selected HDUs' values), each value's area (within 40%) and the "
+               "distance between the inputs' centroids (within 2 pixels; the encoding keeps inputs >= 8 pixels apart)")
     ctx.assume("in scope: every selected HDU exists, holds a 2-D image and carries the selected WCS key; per-file lists have one "
                "entry per input path (what happens for tables, missing keys, short lists or files without any image is not judged)")
     ctx.assume("an HDU 'holds image data' when it is a 2-D image array (empty HDUs and binary tables do not); 1-D arrays, cubes, "
